@@ -192,10 +192,11 @@ def main(run):
         w = [rng.choice([1, -1]) for _ in range(n)]
         f = mk(w, None)
         ops, obs, exp = [], [], []
+        pool = {}      # the SAME tuple object is re-assigned now and then (assign / delete / assign again)
         for _ in range(rng.randint(0, 8)):
             if rng.random() < 0.55:
-                v = [rng.randint(0, 3) for _ in range(n)]
-                f.values = tuple(float(x) for x in v)
+                v = [rng.randint(0, 1) for _ in range(n)] if rng.random() < 0.5 else [rng.randint(0, 3) for _ in range(n)]
+                f.values = pool.setdefault(tuple(v), tuple(float(x) for x in v))
                 ops.append("(OSet %s)" % czl(v))
                 exp.append(True)
             else:
@@ -269,11 +270,12 @@ def main(run):
         ref = mk(w, rv, rc, True)
         ops, obs, pyobs = [], [], []
         assigned = False
+        pool = {}
         for _ in range(rng.randint(1, 6)):
             r = rng.random()
             if r < 0.35:
-                v = [rng.randint(0, 2) for _ in range(n)]
-                f.values = tuple(float(x) for x in v)
+                v = [rng.randint(0, 1) for _ in range(n)] if rng.random() < 0.5 else [rng.randint(0, 2) for _ in range(n)]
+                f.values = pool.setdefault(tuple(v), tuple(float(x) for x in v))
                 ops.append("(CSet %s)" % czl(v))
                 assigned = True
             elif r < 0.65:
@@ -285,6 +287,7 @@ def main(run):
                 f.constraint_violation = c
                 ops.append("(CViol %s)" % copt(c, cbl))
             six = [bool(op(f, ref)) for op in ops6] + [bool(f.dominates(ref))]
+            rsix = [bool(op(ref, f)) for op in ops6] + [bool(ref.dominates(f))]
             cvv = f.constraint_violation
             cvv = None if cvv is None else [bool(x) for x in cvv]
             o = (bool(f.valid), [int(x) for x in f.wvalues], cvv, six)
@@ -294,6 +297,10 @@ def main(run):
                 run.oracle_violation("valid is not 'assigned and not deleted' (constrained fitness history)",
                                      {"kind": "cons-history", "weights": w, "ops": list(ops)}, observed=o)
             f_viol = (not assigned) and cvv is not None and any(cvv)
+            ref_viol = rv is None and rc is not None and any(rc)
+            if ref_viol and assigned and not f_viol and (rsix[4] or rsix[5] or rsix[2] or rsix[6]):
+                run.oracle_violation("violating fitness compares better/equal/dominating vs a fitness that was repaired and evaluated (history)",
+                                     {"kind": "cons-history", "weights": w, "ops": list(ops), "ref": [rv, rc]}, observed=[o, rsix])
             if f_viol and rv is not None and (six[4] or six[5] or six[2] or six[6]):
                 run.oracle_violation("violating fitness compares better/equal/dominating vs feasible evaluated (history)",
                                      {"kind": "cons-history", "weights": w, "ops": list(ops), "ref": [rv, rc]}, observed=o)
